@@ -129,10 +129,10 @@ func alignUp(v, a int) int {
 }
 
 type c18Stats struct {
-	widths  map[int]bool
-	wide    bool
+	widths         map[int]bool
+	wide           bool
 	optAfterNarrow bool
-	composite int
+	composite      int
 }
 
 // c18Inv checks the invariants of t and all its sub-terms; returns the first violation.
@@ -303,8 +303,8 @@ func c18Check(env *core.Env, ci any) (res core.Result) {
 
 func init() {
 	core.Register(&core.Prop{
-		ID: "C18",
-		Rule: "white-box: rapid-generated type expressions up to depth 4 (structs of 1-6 fields over 19 primitives of 1..32 bytes, nested structs, fixed arrays, optionals, results, references, dynamic arrays, named types) laid out by mir.NewDataLayout(8) and (4); invariants on every sub-term: size multiple of a power-of-two alignment, struct fields aligned / ordered / pairwise disjoint / inside the struct, FieldOffset consistent, array size = len x element size, optional flag byte at SizeOf(inner) inside the optional, result discriminant at alignTo(max(ok,err), align) inside the result and outside both payloads. black-box: see evidence key 'blackbox'. non-trivial = a composite with >=3 distinct primitive widths incl. one >=16 bytes, or an optional following a narrower field; distinct = the rendered type expression",
+		ID:    "C18",
+		Rule:  "white-box: rapid-generated type expressions up to depth 4 (structs of 1-6 fields over 19 primitives of 1..32 bytes, nested structs, fixed arrays, optionals, results, references, dynamic arrays, named types) laid out by mir.NewDataLayout(8) and (4); invariants on every sub-term: size multiple of a power-of-two alignment, struct fields aligned / ordered / pairwise disjoint / inside the struct, FieldOffset consistent, array size = len x element size, optional flag byte at SizeOf(inner) inside the optional, result discriminant at alignTo(max(ok,err), align) inside the result and outside both payloads. black-box: see evidence key 'blackbox'. non-trivial = a composite with >=3 distinct primitive widths incl. one >=16 bytes, or an optional following a narrower field; distinct = the rendered type expression",
 		Gen:   c18Gen,
 		New:   func() any { return &c18Case{} },
 		Check: c18Check,
